@@ -50,8 +50,12 @@ func (e *Engine) GroundObligations(prop, tier string) ([]*Obligation, []string) 
 	switch prop {
 	case "C12":
 		g.tables()
+		g.inj32()
 		g.auditArch()
 		g.aliases()
+	case "C07":
+		// premise of the 'valid policies are accepted' clauses (infoInj of spec/50_policy2.smt2) for the real tables
+		g.inj32()
 	case "C19":
 		g.constantsAllTargets(tier)
 	case "C14":
@@ -249,6 +253,66 @@ func (g *groundCtx) tables() {
 			}
 		}
 		g.add("arch."+pair[0], "arch."+pair[0]+"#ground.info", "Info literal: SyscallNumbers is its table, SyscallNames is invert of the same table, Name as documented", ok, detail, pos)
+	}
+}
+
+// inj32: for each Info literal with tables, the word the compiler compares the syscall number with,
+// uint32(number | SeccompMask), is different for different names (infoInj of the spec library, evaluated exactly
+// on the literals; together with pre@invert.injective: name -> word is injective).
+func (g *groundCtx) inj32() {
+	p := g.e.pkgNamed("arch")
+	if p == nil {
+		g.add("arch.tables", "arch.tables#ground.load", "package arch is loaded", false, "package arch not found", token.NoPos)
+		return
+	}
+	for _, pair := range [][2]string{{"ARM", "syscallsARM"}, {"AARCH64", "syscallsAARCH64"}, {"I386", "syscalls386"}, {"X32", "syscallsX32"}, {"X86_64", "syscallsX86_64"}} {
+		fn := "arch." + pair[0]
+		init, pos := findVarInit(p, pair[0])
+		mask, maskOK := int64(0), true
+		table := ""
+		if ue, isU := init.(*ast.UnaryExpr); isU {
+			if cl, isCL := ue.X.(*ast.CompositeLit); isCL {
+				for _, el := range cl.Elts {
+					kv, isKV := el.(*ast.KeyValueExpr)
+					if !isKV {
+						maskOK = false
+						continue
+					}
+					switch kv.Key.(*ast.Ident).Name {
+					case "SeccompMask":
+						tv := p.TypesInfo.Types[kv.Value]
+						if tv.Value == nil {
+							maskOK = false
+						} else if v, exact := constant.Int64Val(tv.Value); exact {
+							mask = v
+						} else {
+							maskOK = false
+						}
+					case "SyscallNumbers":
+						table = exprString(kv.Value)
+					}
+				}
+			} else {
+				maskOK = false
+			}
+		} else {
+			maskOK = false
+		}
+		ents, _, err := tableEntries(p, pair[1])
+		if !maskOK || err != nil || table != pair[1] {
+			g.add(fn, fn+"#ground.inj32", "Info literal with a constant SeccompMask over its literal table", false, fmt.Sprintf("mask constant: %v, table %q, err %v", maskOK, table, err), pos)
+			continue
+		}
+		byWord := map[uint32]string{}
+		bad := ""
+		for _, en := range ents {
+			w := uint32(en.Num | mask)
+			if other, dup := byWord[w]; dup && other != en.Name {
+				bad = fmt.Sprintf("%s and %s both compile to the word %#x", other, en.Name, w)
+			}
+			byWord[w] = en.Name
+		}
+		g.add(fn, fn+"#ground.inj32", fmt.Sprintf("distinct syscall names compile to distinct 32-bit words uint32(number | %#x) (%d entries; infoInj)", mask, len(ents)), bad == "" && len(ents) > 0, bad, pos)
 	}
 }
 
